@@ -185,6 +185,9 @@ func runC07(r *simkit.Run) {
 		step()
 	}
 	succ := checkDKGAgreement(r, w, eon, honest)
+	// two more blocks without transactions so that the observers can catch up with a quiet tail
+	w.quietTail()
+	checkObserverMirror(r, w, "", honest)
 	r.Eventf("eon %d: %d/%d honest keypers report success", eon, succ, len(honest))
 	inPhase, nAcc, nApo := dkgMessagesInPhase(w, eon, honest)
 	if inPhase {
@@ -275,4 +278,100 @@ func dkgMessagesInPhase(w *worldB, eon int64, honest []*bNode) (inPhase bool, nA
 		}
 	}
 	return
+}
+
+// checkObserverMirror: what a keyper's observer has stored about shuttermint (batch configs,
+// eons, checked-in keypers) equals the application's state once the keyper has caught up with
+// a quiet chain tail - every event was decoded to the values the application put in and applied
+// exactly once (C14 end to end; for crash twins also C08's exactly-once clause).
+func checkObserverMirror(r *simkit.Run, w *worldB, where string, nodes []*bNode) {
+	blocks := w.tmc.Blocks
+	if len(blocks) < 4 {
+		return
+	}
+	for _, b := range blocks[len(blocks)-3:] {
+		if len(b.Txs) != 0 || len(b.Begin.Events) != 0 || len(b.End.Events) != 0 {
+			r.Probe("mirror-skipped-busy-tail")
+			return
+		}
+	}
+	a := w.tmc.Replicas[0].App
+	for _, nd := range nodes {
+		if !nd.running || nd.syncedBlock() < w.tmc.Height-3 {
+			r.Probe(fmt.Sprintf("mirror-skipped-not-caught-up-lag-%d", w.tmc.Height-nd.syncedBlock()))
+			continue
+		}
+		tbl := func(name string) []map[string]any {
+			cols, rows := nd.db.Dump(name)
+			var out []map[string]any
+			for _, rw := range rows {
+				m := map[string]any{}
+				for i, c := range cols {
+					m[c] = rw[i]
+				}
+				out = append(out, m)
+			}
+			return out
+		}
+		// batch configs
+		have := map[int64]map[string]any{}
+		for _, m := range tbl("tendermint_batch_config") {
+			have[m["keyper_config_index"].(int64)] = m
+		}
+		for _, cfg := range a.Configs {
+			m, ok := have[int64(cfg.KeyperConfigIndex)]
+			if !ok {
+				if cfg.KeyperConfigIndex == 0 {
+					continue // the genesis config is not announced by an event
+				}
+				r.Fail("observer-mirror-differs", "batch-config", "%s%s never stored batch config %d of the application", where, nd.name, cfg.KeyperConfigIndex)
+			}
+			var ks []string
+			for _, k := range cfg.Keypers {
+				ks = append(ks, shdb.EncodeAddress(k))
+			}
+			got := fmt.Sprintf("%v t=%v act=%v started=%v", m["keypers"], m["threshold"], m["activation_block_number"], m["started"])
+			want := fmt.Sprintf("%v t=%v act=%v started=%v", ks, cfg.Threshold, cfg.ActivationBlockNumber, cfg.Started)
+			if got != want {
+				r.Fail("observer-mirror-differs", "batch-config", "%s%s stores batch config %d as {%s}, the application has {%s}", where, nd.name, cfg.KeyperConfigIndex, got, want)
+			}
+			delete(have, int64(cfg.KeyperConfigIndex))
+		}
+		for idx := range have {
+			r.Fail("observer-mirror-differs", "batch-config", "%s%s stores a batch config %d the application does not have", where, nd.name, idx)
+		}
+		// eons
+		eons := map[int64]map[string]any{}
+		for _, m := range tbl("eons") {
+			eons[m["eon"].(int64)] = m
+		}
+		for eon, inst := range a.DKGMap {
+			m, ok := eons[int64(eon)]
+			if !ok {
+				r.Fail("observer-mirror-differs", "eons", "%s%s never stored eon %d (config %d) started by the application", where, nd.name, eon, inst.Config.KeyperConfigIndex)
+			}
+			if m["keyper_config_index"].(int64) != int64(inst.Config.KeyperConfigIndex) || m["activation_block_number"].(int64) != int64(inst.Config.ActivationBlockNumber) {
+				r.Fail("observer-mirror-differs", "eons", "%s%s stores eon %d as config %v activation %v, the application has config %d activation %d", where, nd.name, eon, m["keyper_config_index"], m["activation_block_number"], inst.Config.KeyperConfigIndex, inst.Config.ActivationBlockNumber)
+			}
+			delete(eons, int64(eon))
+		}
+		for eon := range eons {
+			r.Fail("observer-mirror-differs", "eons", "%s%s stores an eon %d the application never started", where, nd.name, eon)
+		}
+		// checked-in keypers
+		addrs := map[string]bool{}
+		for _, m := range tbl("tendermint_encryption_key") {
+			addrs[m["address"].(string)] = true
+		}
+		for ad := range a.Identities {
+			if !addrs[shdb.EncodeAddress(ad)] {
+				r.Fail("observer-mirror-differs", "check-in", "%s%s has no encryption key for checked-in keyper %s", where, nd.name, ad.Hex())
+			}
+			delete(addrs, shdb.EncodeAddress(ad))
+		}
+		for ad := range addrs {
+			r.Fail("observer-mirror-differs", "check-in", "%s%s stores an encryption key for %s which never checked in", where, nd.name, ad)
+		}
+		r.Probe("observer-mirror-checked")
+	}
 }
